@@ -100,7 +100,9 @@ def run_case(case):
                 e = entry_err(A, E)
                 cov['basis_columns'] = A.shape[1]
                 if not (e <= TOL):
-                    d = np.abs(A - E) / np.where(np.abs(A) + np.abs(E) > 0, np.abs(A) + np.abs(E), 1)
+                    sc_ = np.abs(A) + np.abs(E)
+                    sc_ = sc_ + 1e-3 * sc_.max(axis=1, keepdims=True)
+                    d = np.abs(A - E) / np.where(sc_ > 0, sc_, 1)
                     d = np.where(np.isfinite(d), d, np.inf)
                     i, j = np.unravel_index(int(np.argmax(d)), d.shape)
                     cell = np.unravel_index(int(rows[i]), g.full_shape())
